@@ -26,7 +26,7 @@ ALLSCALAR = IS([(0, 0xd7ff), (0xe000, 0x10ffff)])
 
 def rule_utf8dec(chk, prog, tier):
     r = chk.rule('C14.c', 'utf8dec accepts, per sequence length, exactly the Unicode scalar values whose shortest form has that length (no overlong forms, no surrogates, nothing above U+10FFFF)',
-                 floor=4, oracle='Unicode 15 Table 3-7 / DESIGN A.8')
+                 floor=17, oracle='Unicode 15 Table 3-7 / DESIGN A.8')
     fn = prog.require_func('utf8dec')
     def runner(it):
         buf = Obj('bytes', 'heap')
@@ -57,6 +57,44 @@ def rule_utf8dec(chk, prog, tier):
     for l in acc:
         if l not in (1, 2, 3, 4):
             r.violation('utf8dec:length=%s' % l, where, 'decoder reports a sequence length of %s' % l)
+    # per lead byte: the sequences starting with it decode to exactly the scalars whose UTF-8 form starts with it (the decoder is the inverse of the encoding, not just onto the right set)
+    def lead_want(b0):
+        out = {}
+        for lo, hi in ((0, 0xd7ff), (0xe000, 0x10ffff)):
+            # encodings are monotone in the code point: the scalars with a given first byte form one interval per range
+            cs = [c for c in (lo, hi)]
+            for l, (a, b) in ((1, (0, 0x7f)), (2, (0x80, 0x7ff)), (3, (0x800, 0xffff)), (4, (0x10000, 0x10ffff))):
+                a2, b2 = max(a, lo), min(b, hi)
+                if a2 > b2: continue
+                shift = 6 * (l - 1)
+                first = lambda c: c if l == 1 else ((0xc0, 0xe0, 0xf0)[l - 2] | c >> shift)
+                if first(a2) > b0 or first(b2) < b0: continue
+                x0 = max(a2, ((b0 & (0x7f, 0x1f, 0x0f, 0x07)[l - 1]) << shift)); x1 = min(b2, x0 | (1 << shift) - 1)
+                if first(x0) != b0: continue
+                out[l] = out.get(l, IS()).union(IS([(x0, x1)]))
+        return out
+    GROUPS = [(0, 0x7f), (0x80, 0xbf), (0xc0, 0xc1), (0xc2, 0xdf), (0xe0, 0xe0), (0xe1, 0xec), (0xed, 0xed), (0xee, 0xef), (0xf0, 0xf0), (0xf1, 0xf3), (0xf4, 0xf4), (0xf5, 0xf7), (0xf8, 0xff)]
+    for glo, ghi in GROUPS:
+        badl = []
+        for b0 in range(glo, ghi + 1):
+            def runner1(it, b0=b0):
+                buf = Obj('bytes', 'heap'); buf.f[(0,)] = b0
+                for i in range(1, 4): buf.f[(i,)] = Sym('b%d' % i, range(256))
+                c = Obj('c', 'heap')
+                l = it.call(fn, [Ptr(c, ()), Ptr(buf, (0,)), 4])
+                return l, c.f.get(())
+            got = {}
+            for run in explore(prog, runner1, {}, cls=IvInterp, max_runs=5000):
+                if run.outcome != 'return':
+                    raise AnalysisBroken('utf8dec lead %#x: %s %s' % (b0, run.outcome, run.detail))
+                l, cv = run.value
+                if l == 2 ** 64 - 1: continue
+                img = run.interp.image(cv) if not isinstance(cv, int) else IS([(cv, cv)])
+                got[l] = got.get(l, IS()).union(img)
+            want = lead_want(b0)
+            if set(got) != set(want) or any(got[l].subtract(want[l]) or want[l].subtract(got[l]) for l in want):
+                badl.append('%#x: decodes %r, UTF-8 gives %r' % (b0, got, want))
+        r.instance(not badl, 'utf8dec:lead=%#x..%#x' % (glo, ghi), where, '; '.join(badl[:3]))
     # truncated input: n smaller than the sequence length must be rejected
     def runner2(it):
         buf = Obj('bytes', 'heap')
